@@ -63,7 +63,7 @@ def gen_c11_spec(rng: random.Random) -> Dict[str, Any]:
         "client_sends": sends, "loopback": True, "msgs": [], "mws": mws,
         "retry": {"default_count": default_count, "default_label": default_label, "no_result_on_retry": nro,
                   "pos": rng.choice([0, 1])},
-        "backend": {"lat": rng.choice([0, "y", 0.01])},
+        "backend": {"lat": rng.choice([0, "y", 0.01]), "stock": rng.random() < 0.4},
         "stop_at": 30.0, "horizon": 60.0, "_meta": meta,
     }
     return spec
@@ -137,6 +137,27 @@ def oracle_c11(rr: Any, spec: Dict[str, Any]) -> "tuple[List[Violation], int]":
         stored = ["err" if e["is_err"] else "ok" for e in got["set"]]
         if stored != want["stored"] and n == want["execs"]:
             v.append(Violation("stored-results", f"{tok}: stored {stored}, expected {want['stored']} (no_result_on_retry={spec['retry']['no_result_on_retry']})"))
+        stock = getattr(rr.sc, "stock_backend", None)
+        if stock is not None and n == want["execs"] and want["stored"]:
+            # what a client reads back from the bundled InmemoryResultBackend is the final attempt's outcome
+            final = stock.results.get(tok)
+            last = [r for dd, tid, r in rr.sc.saved if tid == tok]
+            if final is None or not last or final is not last[-1]:
+                kind = "final-result-not-stored"
+                # mechanism (recorded finding F15): the retry is sent from on_error *before* the failed
+                # attempt's result is saved, so the saves of two attempts of one task id can overlap and the
+                # earlier attempt's save may complete last (slow / reordering backend), overwriting the final one
+                if final is not None and last and not spec["retry"]["no_result_on_retry"]:
+                    exits = {}
+                    for e in tr:
+                        if e["k"] == "set_exit":
+                            exits[e["m"]] = e["i"]
+                    d_final = [dd for dd, tid, r in rr.sc.saved if tid == tok][-1]
+                    d_kept = [dd for dd, tid, r in rr.sc.saved if tid == tok and r is final]
+                    if d_kept and d_kept[0] != d_final and exits.get(d_kept[0], -1) > exits.get(d_final, 10 ** 12) - 0:
+                        kind = "final-result-overtaken-by-earlier-attempt"
+                v.append(Violation(kind, f"{tok}: the in-memory result backend holds {None if final is None else ('err' if final.is_err else 'ok')} "
+                                   f"(value {getattr(final, 'return_value', None)!r}, error {getattr(final, 'error', None)!r}), not the result of the final attempt ({want['stored']})"))
         # every attempt: same args/kwargs/user labels
         user = dict(send["labels"])
         user["own"] = tok
